@@ -70,6 +70,10 @@ structure ValQuirks where
   lexicographically, so when the numbers are equal the `calculated` flag decides `<`/`>`, while
   `==` ignores it: `calc(1px) < 1px` and `calc(1px) == 1px` are both true -/
   ordCalcFlag : Bool := false
+  /-- value/operator.rs `cmp` before commit 364945a: an order operator on operands that are not two
+  numbers (or two strings) was always left unevaluated (`Ok(None)`); now it is an undefined
+  operation unless one operand is a string/call/binop that may be part of a css expression -/
+  ordNonNumberKept : Bool := false
   /-- css/value.rs `impl PartialEq for Value`: no arm for `(ArgList, ArgList)` → `false` -/
   argListNeverEqual : Bool := false
   deriving DecidableEq, Repr
@@ -78,9 +82,9 @@ def spec : ValQuirks := {}
 /-- the code as it was when the checks were written (before the `fix:` commits f2e4863, 001310e) -/
 def asisOld : ValQuirks :=
   { numEqAsymmetric := true, convCmpOneWay := true, cmpOldUnitRules := true, strEqSameQuotesRaw := true, mapEqOrdered := true,
-    argListNeverEqual := true, ordCalcFlag := true }
+    argListNeverEqual := true, ordCalcFlag := true, ordNonNumberKept := true }
 /-- the code today -/
-def asis : ValQuirks := { ordCalcFlag := true }
+def asis : ValQuirks := {}
 
 def ValQuirks.cmp (q : ValQuirks) : Num.CmpQuirks := { numEqAsymmetric := q.numEqAsymmetric }
 
